@@ -800,6 +800,15 @@ func (v *Protocol) WriteMessage(m *Message) (err error) {
 		return oe.Wrapf(err, "flush writer")
 	}
 
+	// The peer reads the chunks after a Set Chunk Size with the announced size,
+	// so we must write them with it.
+	if m.MessageType == MessageTypeSetChunkSize {
+		pkt := NewSetChunkSize()
+		if pkt.UnmarshalBinary(m.Payload) == nil {
+			v.output.opt.chunkSize = pkt.ChunkSize
+		}
+	}
+
 	return
 }
 
